@@ -29,7 +29,13 @@ class ScalaSource:
     def __init__(self, rel: str, src: str):
         self.rel = rel
         self.src = src
-        self.code = _mask(rel, src)  # same length; comments and literal CONTENTS blanked, quotes kept
+        # code: same length as src; comments and literal CONTENTS blanked (quotes kept) - used for bracket matching / anchors
+        # nocomment: same length; only comments blanked - used to read text
+        self.code, spans = _mask(rel, src)
+        buf = list(self.code)
+        for a, b in spans:
+            buf[a:b] = src[a:b]
+        self.nocomment = ''.join(buf)
 
     def line_of(self, pos: int) -> int:
         return self.src.count('\n', 0, pos) + 1
@@ -149,11 +155,8 @@ class ScalaSource:
         return self.src[lo:hi]
 
     def norm(self, lo: int, hi: int) -> str:
-        """Whitespace-normalised ORIGINAL text (comments removed)."""
-        buf = []
-        for k in range(lo, hi):
-            buf.append(self.src[k] if (self.code[k] != ' ' or self.src[k] in ' \t\r\n') or _in_literal(self, k) else ' ')
-        return ' '.join(''.join(buf).split())
+        """Whitespace-normalised original text with comments removed."""
+        return ' '.join(self.nocomment[lo:hi].split())
 
     def case_arms(self, lo: int, hi: int) -> List[Tuple[str, int, int]]:
         """The `case <pattern> =>` arms at bracket depth 0 of [lo, hi): (pattern text, body start, body end)."""
@@ -174,7 +177,7 @@ class ScalaSource:
                     arrow += 1
                 if arrow >= hi:
                     raise AnalysisError(f'{self.rel}:{self.line_of(i)}: `case` without `=>`')
-                heads.append((i, arrow + 2, ' '.join(self.src[i + 4:arrow].split())))
+                heads.append((i, arrow + 2, ' '.join(self.nocomment[i + 4:arrow].split())))
                 i = arrow + 2
                 continue
             i += 1
@@ -185,18 +188,7 @@ class ScalaSource:
         return out
 
 
-_literal_spans: Dict[int, List[Tuple[int, int]]] = {}
-
-
-def _in_literal(s: ScalaSource, k: int) -> bool:
-    spans = _literal_spans.get(id(s), [])
-    for lo, hi in spans:
-        if lo <= k < hi:
-            return True
-    return False
-
-
-def _mask(rel: str, src: str) -> str:
+def _mask(rel: str, src: str) -> Tuple[str, List[Tuple[int, int]]]:
     """Blank comments entirely and the contents of string / char literals (delimiters stay)."""
     out = list(src)
     n = len(src)
@@ -263,12 +255,9 @@ def _mask(rel: str, src: str) -> str:
                 i += 1
         else:
             i += 1
-    masked = ''.join(out)
-    _pending_spans.append(spans)
-    return masked
+    return ''.join(out), spans
 
 
-_pending_spans: List[List[Tuple[int, int]]] = []
 _src_cache: Dict[str, ScalaSource] = {}
 
 
@@ -276,7 +265,6 @@ def load(rel: str) -> ScalaSource:
     if rel in _src_cache:
         return _src_cache[rel]
     s = ScalaSource(rel, read_repo(rel))
-    _literal_spans[id(s)] = _pending_spans.pop() if _pending_spans else []
     _src_cache[rel] = s
     return s
 
